@@ -261,3 +261,30 @@ NOT_YET = "not yet decided by the Lean model in this revision (machinery for it 
 
 # properties the technique genuinely cannot decide (none so far): id -> reason
 NOT_APPLICABLE = {}
+
+
+def _collect_module_claims():
+    """a property runner may carry its own claim: `CLAIM = dict(category=, technique=, text=, note=, design_ref=)`
+    in harness/props/cNN.py; entries in the table above win"""
+    import ast
+    from pathlib import Path
+    for p in sorted((Path(__file__).parent / "props").glob("c[0-9][0-9].py")):
+        pid = p.stem.upper()
+        if pid in CLAIMED:
+            continue
+        try:
+            tree = ast.parse(p.read_text())
+        except SyntaxError:
+            continue
+        for node in tree.body:
+            if isinstance(node, ast.Assign) and any(isinstance(t, ast.Name) and t.id == "CLAIM" for t in node.targets):
+                try:
+                    c = ast.literal_eval(node.value) if not isinstance(node.value, ast.Call) else \
+                        {k.arg: ast.literal_eval(k.value) for k in node.value.keywords}
+                except Exception:  # noqa
+                    continue
+                if {"category", "technique", "text", "note", "design_ref"} <= set(c):
+                    CLAIMED[pid] = c
+
+
+_collect_module_claims()
